@@ -309,11 +309,12 @@ CHECKS["C03"] = {
     "rule": "a case = (name, operation[, frontend]). Non-trivial = an invalid name whose lexical join with the base directory lands on an existing credential file inside or outside the base; "
             "distinct = distinct (name class, operation, name)",
     "assumptions": [],
-    "required_classes": {"all": ["name:resolves-to-existing-credential-file", "nameclass:traversal", "nameclass:alias", "nameclass:absolute", "nameclass:control", "invalid-named-file:only-admin=true"]},
+    "required_classes": {"all": ["traced-invalid-name", "name:resolves-to-existing-credential-file", "nameclass:traversal", "nameclass:alias", "nameclass:absolute", "nameclass:control", "invalid-named-file:only-admin=true"]},
     "jobs": [
         J("names", VSTORE, "TestC03Names", {"shards": 8, "checks": 300}, {"shards": 16, "checks": 6000}),
         J("files", VSTORE, "TestC03InvalidNamedFiles", {"shards": 2, "checks": 200}, {"shards": 8, "checks": 3000}),
         J("frontends", AGENT, "TestC03Frontends", {"shards": 4, "checks": 80}, {"shards": 16, "checks": 2000}, toolchain="go126"),
+        J("confinement", VTRACE, "TestC03Confinement", {"shards": 4, "checks": 30}, {"shards": 16, "checks": 800}),
     ],
 }
 
@@ -447,3 +448,5 @@ CHECKS["C15"] = {
         J("faults", VTRACE, "TestC15FaultInjection", {"shards": 8, "checks": 2}, {"shards": 16, "checks": 60}),
     ],
 }
+
+CHECKS["C03"]["prebuild"] = DRV_PREBUILD
